@@ -8,6 +8,7 @@ import ast
 from tfsa.flow import Flow, show
 from tfsa.effects import mode_is_write
 from tfsa.report import norm
+from tfsa.loader import own_nodes
 from . import common as C
 
 PROP = "C18"
@@ -221,6 +222,63 @@ def create_rules(ctx):
     return full
 
 
+def _vacancy_guard(ctx, fn, use, dst, depth):
+    """Is the statement containing `use` reached only when nothing exists at the path held by variable `dst`?
+    (True, text, weak) / (False, text, weak) / (None, reason, weak).  The test may sit in this function, or in the package
+    function that produced the path (a helper that builds the destination and insists it is free)."""
+    g = C.cfg_of(fn)
+    rn = C.stmt_node(ctx, fn, use)
+    weak = []
+    for tnode in g.live_nodes():
+        if tnode.kind != "test" or not g.dominates(tnode, rn):
+            continue
+        texpr = C.test_expr(tnode)
+
+        def atom(x):
+            # only a test for *any* kind of entry protects: is_file / isfile lets a directory, FIFO, socket or a link to a
+            # directory through, and os.rename silently replaces those (shutil.move moves into a directory)
+            if C.is_ext_call(ctx, x, fn, ("os.path.exists", "os.path.lexists")) and x.args \
+                    and isinstance(x.args[0], ast.Name) and x.args[0].id == dst:
+                return True
+            if isinstance(x, ast.Call) and isinstance(x.func, ast.Attribute) and x.func.attr in ("exists",) \
+                    and isinstance(x.func.value, ast.Name) and x.func.value.id == dst:
+                return True
+            if C.is_ext_call(ctx, x, fn, ("os.path.isfile", "os.path.isdir", "os.path.islink")) and x.args and isinstance(x.args[0], ast.Name) and x.args[0].id == dst:
+                weak.append(norm(x))
+            if isinstance(x, ast.Call) and isinstance(x.func, ast.Attribute) and x.func.attr in ("is_file", "is_dir", "is_symlink") and isinstance(x.func.value, ast.Name) and x.func.value.id == dst:
+                weak.append(norm(x))
+            return None
+        lab = C.branch_when(tnode, atom)
+        if lab is None:
+            continue
+        taken = C.succ_by_label(tnode, lab)
+        if any(rn is s_ or rn in g.reachable(s_) for s_ in taken):
+            continue
+        if C.names_assigned_between(ctx, fn, tnode, rn, dst):
+            continue
+        return True, "dominated by the test '%s' in %s; when the destination exists the %s branch is taken and it cannot reach this statement" % (norm(texpr), fn.name, lab), weak
+    # the path may come, already vetted, from a package function
+    bl = ctx.res.bindings(fn).get(dst, [])
+    if len(bl) == 1 and bl[0][0] == "value" and isinstance(bl[0][1], ast.Call):
+        tg = C.targets_of(ctx, fn, bl[0][1])
+        if tg and depth < 2:
+            texts = []
+            for f in tg:
+                rets = [r for r in own_nodes(f.node) if isinstance(r, ast.Return) and r.value is not None]
+                if not rets or not all(isinstance(r.value, ast.Name) for r in rets):
+                    return None, "the destination comes from %s, whose return value is not a plain variable" % f.name, weak
+                for r in rets:
+                    v, t, w = _vacancy_guard(ctx, f, r, r.value.id, depth + 1)
+                    weak += w
+                    if v is not True:
+                        return v, t, weak
+                    texts.append(t)
+            return True, "the destination comes from %s: %s" % (", ".join(f.name for f in tg), texts[0]), weak
+        if tg:
+            return None, "the destination comes through more than two helper levels", weak
+    return False, "", weak
+
+
 def rename_rules(ctx):
     entries = C.funcs(ctx, ["torrentfile.commands:rename"])
     effs, precise, full = C.reach_effects(ctx, entries, ("fs-write", "fs-write?"))
@@ -241,42 +299,12 @@ def rename_rules(ctx):
             ctx.undecided("C18.3", fn, "destination of os.rename is not a plain variable", call)
             continue
         dst = call.args[1].id
-        g = C.cfg_of(fn)
-        rn = C.stmt_node(ctx, fn, call)
-        guarded = False
-        weak = []
-        for tnode in g.live_nodes():
-            if tnode.kind != "test" or not g.dominates(tnode, rn):
-                continue
-            texpr = C.test_expr(tnode)
-
-            def atom(x):
-                # only a test for *any* kind of entry protects: is_file / isfile lets a directory, FIFO, socket or a link to a
-                # directory through, and os.rename silently replaces those (shutil.move moves into a directory)
-                if C.is_ext_call(ctx, x, fn, ("os.path.exists", "os.path.lexists")) and x.args \
-                        and isinstance(x.args[0], ast.Name) and x.args[0].id == dst:
-                    return True
-                if isinstance(x, ast.Call) and isinstance(x.func, ast.Attribute) and x.func.attr in ("exists",) \
-                        and isinstance(x.func.value, ast.Name) and x.func.value.id == dst:
-                    return True
-                if C.is_ext_call(ctx, x, fn, ("os.path.isfile", "os.path.isdir", "os.path.islink")) and x.args and isinstance(x.args[0], ast.Name) and x.args[0].id == dst:
-                    weak.append(norm(x))
-                if isinstance(x, ast.Call) and isinstance(x.func, ast.Attribute) and x.func.attr in ("is_file", "is_dir", "is_symlink") and isinstance(x.func.value, ast.Name) and x.func.value.id == dst:
-                    weak.append(norm(x))
-                return None
-            lab = C.branch_when(tnode, atom)
-            if lab is None:
-                continue
-            taken = C.succ_by_label(tnode, lab)
-            if any(rn is s or rn in g.reachable(s) for s in taken):
-                continue
-            if C.names_assigned_between(ctx, fn, tnode, rn, dst):
-                continue
-            guarded = True
-            ctx.holds("C18.3", fn, "%s is dominated by the test '%s'; when the destination exists the %s branch is taken and it cannot reach the rename" % (
-                e.prim, norm(texpr), lab), call, path=where)
-            break
-        if not guarded:
+        verdict, text, weak = _vacancy_guard(ctx, fn, call, dst, 0)
+        if verdict is True:
+            ctx.holds("C18.3", fn, "%s: %s" % (e.prim, text), call, path=where)
+        elif verdict is None:
+            ctx.undecided("C18.3", fn, "%s(%s, %s): %s" % (e.prim, norm(call.args[0]), dst, text), call, path=where)
+        else:
             ctx.violated("C18.3", fn, "%s(%s, %s) is not guarded by an existence test on the destination whose 'exists' branch leaves the function: an existing %s" % (
                 e.prim, norm(call.args[0]), dst, "entry that is not a regular file (directory, FIFO, link to a directory) passes `%s` and is replaced%s" % (
                     weak[0], " - shutil.move even moves the metafile into an existing directory" if mover else "") if weak else "file would be replaced"), call, path=where)
